@@ -224,6 +224,7 @@ def scenario_for(seed, index, tier):
     # time) inside the callback, keeping the old networking thread alive
     sc['linger_us'] = rng.choice([0, 0, 300000, 1500000]) \
         if (relisten or rehandler) else 0
+    sc['exit_helper'] = rng.random() < 0.08
     return sc
 
 
@@ -322,6 +323,30 @@ def execute(scenario, tape):
 
         def on_exit():
             st['exits'] += 1
+            if scenario.get('exit_helper'):
+                # the callback hands the clean-up to another thread (whose
+                # clean-up includes an idempotent disconnect()) and waits
+                # for it - which must not be what keeps that thread waiting
+                st['exit_req'] = st.get('exit_req', 0) + 1
+                want = st['exit_req']
+                # (a hard wait: if the helper can never get through, the run
+                # ends as the deadlock it would be in real life)
+                sim.block(lambda: st.get('exit_ack', 0) >= want or
+                          st.get('helper_gone'), None,
+                          reason='exit-callback-waits-for-helper', poll=True,
+                          patient=False)
+
+        def exit_helper():
+            while True:
+                w.wait_until(lambda: st.get('exit_req', 0) >
+                             st.get('exit_ack', 0) or
+                             st.get('final_done'), budget=False)
+                if st.get('exit_req', 0) > st.get('exit_ack', 0):
+                    call('disc', 'helper', conn.disconnect)
+                    st['exit_ack'] = st['exit_req']
+                    continue
+                st['helper_gone'] = True
+                return
 
         conn = Connection('sim.example', 25565, username='cycle',
                           allowed_versions=scenario['allowed'],
@@ -512,6 +537,8 @@ def execute(scenario, tape):
         n = len(scenario['threads'])
         for k in range(n):
             sim.spawn(user(k), 'user%d' % k)
+        if scenario.get('exit_helper'):
+            sim.spawn(exit_helper, 'helper')
 
         def coord():
             w.wait_until(lambda: st['done_threads'] == n, budget=False)
@@ -550,6 +577,7 @@ def execute(scenario, tape):
                         break
             st['final_quiet'] = quiet()
             st['final_rounds'] = rounds + 1
+            st['final_done'] = True
         sim.spawn(coord, 'coord')
 
     from minecraft.networking.connection import Connection as _C
